@@ -131,15 +131,17 @@ ApproxZipfDistribution<IntType>::UpdateCDF()
     zipf_cdf_.at(n_ - 1) = 1.0;
   } else {
     // compute a base probability approximately
-    constexpr size_t kSkipSize = 100;
+    constexpr uint64_t kSkipSize = 100;
+    // NOTE: n_ + 1 overflows IntType when n_ is its maximum value, so count in 64 bits
+    const auto n = static_cast<uint64_t>(n_);
     auto base_prob = 0.0;
-    IntType i = 1;
-    while (i < static_cast<IntType>(kExactBinNum) + 1) {  // compute exact values
+    uint64_t i = 1;
+    while (i < kExactBinNum + 1) {  // compute exact values
       base_prob += 1.0 / pow(i++, alpha_);
     }
-    while (i < n_ + 1) {  // compute approximate values
+    while (i <= n) {  // compute approximate values
       const auto low = 1.0 / pow(i, alpha_);
-      const auto skip = std::min<size_t>(kSkipSize, n_ + 1 - i);  // do not go beyond the last bin
+      const auto skip = std::min<uint64_t>(kSkipSize, n - i + 1);  // do not go beyond the last bin
       i += skip;
       const auto high = 1.0 / pow(i, alpha_);
       base_prob += (low + high) * skip / 2;
